@@ -398,6 +398,33 @@ func RunLit(c LitCase) error {
 		if err := rawTokenChecks(li); err != nil {
 			return err
 		}
+		// untyped destinations take the number as a float64
+		for _, in := range []string{li.lit, "[" + li.lit + "]", `{"k":` + li.lit + `}`} {
+			var a any
+			var err error
+			if p := rt.Guard(func() { err = json.Unmarshal([]byte(in), &a) }); p != nil {
+				return fmt.Errorf("Unmarshal(%s) into any panicked: %v", in, p)
+			}
+			if li.over64 {
+				if err == nil {
+					return fmt.Errorf("Unmarshal(%s) into any succeeded although the number overflows float64; got %v", in, a)
+				}
+				continue
+			}
+			if err != nil {
+				return fmt.Errorf("Unmarshal(%s) into any failed: %v", in, err)
+			}
+			switch x := a.(type) {
+			case []any:
+				a = x[0]
+			case map[string]any:
+				a = x["k"]
+			}
+			f, ok := a.(float64)
+			if !ok || math.Float64bits(f) != math.Float64bits(li.f64) {
+				return fmt.Errorf("Unmarshal(%s) into any = %v (%T); correctly rounded float64 is %v (bits %#x)", in, a, a, li.f64, math.Float64bits(li.f64))
+			}
+		}
 	}
 	return nil
 }
@@ -892,6 +919,9 @@ func marshalPositions(desc string, k *kindInfo, v reflect.Value, want string) er
 		{"after-small-float", []any{1e-300, v.Interface()}, nil, `[1e-300,` + want + `]`},
 		{"member-named-e-", map[string]any{"zone-e-b": v.Interface()}, nil, `{"zone-e-b":` + want + `}`},
 		{"any-elem", []any{v.Interface()}, nil, `[` + want + `]`},
+		{"multiline", v.Interface(), []json.Options{jsontext.Multiline(true)}, want},
+		{"space-after-colon-member", map[string]any{"k": v.Interface()}, []json.Options{jsontext.SpaceAfterColon(true)}, `{"k": ` + want + `}`},
+		{"with-indent-elem", []any{v.Interface()}, []json.Options{jsontext.WithIndent(" ")}, "[\n " + want + "\n]"},
 
 		{"any-member", map[string]any{"k": v.Interface()}, nil, `{"k":` + want + `}`},
 		{"any-field", struct{ A any }{v.Interface()}, nil, `{"A":` + want + `}`},
